@@ -53,7 +53,7 @@ def doc_attrs(lines, syntax):
 
 def build(tier):
     q = tier == "quick"
-    cfgp = os.path.join(vlib.BUILD, "docs-cfg.json")
+    cfgp = os.path.join(vlib.TMP, "docs-cfg.json")
     json.dump({"tokens": [{"name": n, "chars": c04.chars(t)} for n, t in TOKENS], "maxlines": 2 if q else 3, "tail": c04.chars(TAIL),
                "syntaxes": SYNTAX, "positions": list(POSITIONS)}, open(cfgp, "w"))
     r = vlib.run_tlc("MC_Docs", "MC_Docs.cfg", workers=12, env={"VERIF_CFG": cfgp}, timeout=1800, metatag="c15p")
@@ -172,7 +172,7 @@ def run(tier):
             meta.append((desc, u, t, base))
     finally:
         shutil.rmtree(sandbox, ignore_errors=True)
-    tp = os.path.join(vlib.BUILD, "docs-trace.ndjson")
+    tp = os.path.join(vlib.TMP, "docs-trace.ndjson")
     vlib.write_ndjson(tp, recs)
     a = vlib.run_tlc("Trace_Module", "Trace_Module.cfg", workers=12, env={"VERIF_TRACE": tp}, timeout=3000, tags=("BAD",), metatag="c15a")
     vlib.tlc_must_succeed(a, "Trace_Module")
